@@ -1659,7 +1659,7 @@ theorem pullFrom_succ (src : Src) (fuel : Nat) (st : StageSt) (rest : List Stage
         match pullFrom src fuel rest pos with
         | (.item v, rest', pos') => pullFrom src fuel (st'.feed (some v) :: rest') pos'
         | (.eof, rest', pos') => pullFrom src fuel (st'.feed none :: rest') pos'
-        | (.err e, rest', pos') => (.err e, st' :: rest', pos')
+        | (.err e, rest', pos') => (.err e, st'.afterError :: rest', pos')
         | (.oof, rest', pos') => (.oof, st' :: rest', pos') := by
   rw [pullFrom]
   rcases st.poll with ⟨a, s'⟩
@@ -1693,7 +1693,7 @@ theorem pullFrom_length (src : Src) : ∀ (fuel : Nat) (sts : List StageSt) (pos
         show (match pullFrom src fuel rest pos with
           | (.item v, rest', pos') => pullFrom src fuel (st'.feed (some v) :: rest') pos'
           | (.eof, rest', pos') => pullFrom src fuel (st'.feed none :: rest') pos'
-          | (.err e, rest', pos') => (.err e, st' :: rest', pos')
+          | (.err e, rest', pos') => (.err e, st'.afterError :: rest', pos')
           | (.oof, rest', pos') => (.oof, st' :: rest', pos')).2.1.length = (st :: rest).length
         have h1 := ih rest pos
         rcases hpf : pullFrom src fuel rest pos with ⟨r1, rest1, p1⟩
